@@ -114,6 +114,20 @@ func awsInstanceBody() *schema.BodySchema {
 					},
 				},
 			},
+			"volume": {
+				Type:                   schema.BlockTypeSet,
+				Description:            md("volume-desc"),
+				SemanticTokenModifiers: lang.SemanticTokenModifiers{"tf-volume"},
+				Labels: []*schema.LabelSchema{
+					{Name: "kind", Description: md("volume-kind-desc"), SemanticTokenModifiers: lang.SemanticTokenModifiers{"tf-kind"}},
+					{Name: "name", Description: md("volume-name-desc"), SemanticTokenModifiers: lang.SemanticTokenModifiers{"tf-name"}},
+				},
+				Body: &schema.BodySchema{
+					Attributes: map[string]*schema.AttributeSchema{
+						"size": {IsOptional: true, Constraint: schema.AnyExpression{OfType: cty.Number}, Description: md("volume-size-desc")},
+					},
+				},
+			},
 			"timeouts": {
 				Type:        schema.BlockTypeObject,
 				Description: md("timeouts-desc"),
@@ -184,7 +198,7 @@ func awsBucketBody() *schema.BodySchema {
 func resourceBlock() *schema.BlockSchema {
 	return &schema.BlockSchema{
 		Description:            md("resource-block-desc"),
-		SemanticTokenModifiers: lang.SemanticTokenModifiers{"tf-resource"},
+		SemanticTokenModifiers: lang.SemanticTokenModifiers{"tf-resource", "tf-managed"},
 		Labels: []*schema.LabelSchema{
 			{Name: "type", Description: md("resource-type-label-desc"), IsDepKey: true, Completable: true, SemanticTokenModifiers: lang.SemanticTokenModifiers{"tf-type", lang.TokenModifierDependent}},
 			{Name: "name", Description: md("resource-name-label-desc"), SemanticTokenModifiers: lang.SemanticTokenModifiers{"tf-name"}},
